@@ -4,10 +4,10 @@ import time
 from framework.checklib import CorrResult
 from harness import gen, histcorr, semoracle
 
-from translator import t9_circuit_core
+from translator import t9_circuit_core, t10_circuit_algos
 
 ID = 'C10'
-TRANSLATORS = [t9_circuit_core.translate]
+TRANSLATORS = [t9_circuit_core.translate, t10_circuit_algos.translate]
 PROPERTY_FILE = 'Properties/C10.v'
 THEOREMS = ['C10_result_wf', 'C10_connect_left', 'C10_left_induced_assignment', 'C10_connect_right',
             'C10_mapping_pairs', 'C10_mapping_keys', 'C10_new_labels_fresh',
@@ -36,7 +36,10 @@ LEVEL_TEXT = ('proved for the model of connect_circuit in both directions and fo
               'circuit is unmodified because the model is purely functional; the implementation side of that '
               'statement, and the tie model = code, come from the exact state correspondence after every call of '
               'generated composition histories and from the brute-force oracle')
-LEVEL_NOTE = ('Coq kernel + vm_compute (examples); hand-written model Model/Connect.v (connect_circuit with the D1/D17/D18 '
+LEVEL_NOTE = ('Coq kernel + vm_compute (examples); connect_circuit, its five wrappers, Block.into_circuit and top_sort are '
+              'also regenerated from circuit.py by translator T10 and proved equal to the model (Properties/C02.v '
+              'C02_algorithms_regenerated; needs the gate-map keys of the attached circuit unique, part of WF); '
+              'hand-written model Model/Connect.v (connect_circuit with the D1/D17/D18 '
               'repairs: users index updated when a base input is overwritten, re-typed connectors listed in the block, '
               'Block.into_circuit skips inputs already present), Model/Sem.v (Eval), Model/Traverse.v (top_sort), '
               'Proofs/WFConnect*.v (C02) for well-formedness. Hypotheses: WF base, WF other (only these for the '
